@@ -22,11 +22,28 @@ DRIVER = 'Driver/C02.lean'
 REQUIRED_THEOREMS = ['CfVerif.C02.' + n for n in (
     'trace_wf', 'connected_only_when_tables_complete', 'fully_only_when_all_values', 'sync_open_returns',
     'fault_reaches_disconnected', 'link_error_outputs', 'reconnectable', 'repaired_D1', 'repaired_D21',
-    'sync_open_hangs_counterexample', 'stale_fetcher_counterexample')]
-TRUSTED = ['harness/corr/c02.py extractor + correspondence', 'harness/sim/crazyflie_device.py (simulated firmware, environment model)',
-           'harness/vsched (virtual scheduler; search/acceptance only)']
-ASSUMPTIONS = []
-RULE = ''
+    'sync_open_hangs_counterexample', 'stale_fetcher_counterexample',
+    'M2.repaired_D2_D3_D4_D22', 'M2.no_thread_death', 'M2.no_deadlock', 'M2.disconnected_in_bounded_steps',
+    'M2.send_lock_deadlock_counterexample', 'M2.ping_self_join_counterexample', 'M2.dispatcher_death_counterexample',
+    'M2.updater_death_counterexample', 'M2.mem_lock_self_deadlock_counterexample')]
+TRUSTED = ['harness/corr/c02.py extractor + correspondence (incl. the sequentialisation of the blocked user thread in M1)',
+           'harness/sim/crazyflie_device.py (simulated firmware, environment model: every request answered once, in order)',
+           'harness/vsched (virtual scheduler; search / verdict-level agreement only)',
+           'threading.Lock / RLock / Thread.join / Event semantics as modelled in Model/C02Sync and Model/C02 (Wrap)']
+ASSUMPTIONS = ['usage: one user thread; open_link only when no link is open; only an existing driver reports errors (double open is outside)',
+               'M1 operations are atomic; the threaded refinement has the known race D23 (callback of the dispatcher thread delivered '
+               'after the end of the attempt signalled concurrently by another thread)',
+               'M2: one link error per scenario; every interleaving of the threads of a scenario (<= 5 active threads), not of all six at once; '
+               'atomicity at the level of sync operations and the reads of cf.link',
+               'outside: retry timers (C10), duplicated / stale replies (C03), TOC cache hits (C11), 1-wire memories, user callbacks that raise']
+RULE = ('M1: op scripts on the real Crazyflie+SyncCrazyflie against the simulated device: fault (driver thread / sending thread / close / '
+        'blocking close) after the k-th pump step for EVERY k of the handshake x plain / blocking open x 4-7 devices, each followed by a '
+        'second attempt on the same object, no-driver / raising-driver attempts, and random connect/disconnect histories; compared per '
+        'operation with the Lean model (callbacks, return/raise, state, link, is_link_open, is_connected, table sizes) and at the end '
+        '(blocked?, WF verdict Lean vs Python twin).  M2: 10 thread scenarios x seeded random / guided schedules of the real threads under '
+        'vsched, failure kinds vs the verdict of the Lean thread model.  distinct+non-trivial = distinct (case kind, device, executed script) '
+        'resp. (scenario, seed)')
+EXTRA_MODULES = ['CfVerif.Model.C02Sync', 'CfVerif.Proofs.C02Sync']
 
 F_CF = 'cflib/crazyflie/__init__.py'
 F_SYNC = 'cflib/crazyflie/syncCrazyflie.py'
@@ -370,6 +387,7 @@ class M1Real:
         self.stale_log_toc = None
         self.blocked = None
         self.blocking_rec = None
+        self.snapshots = []      # table sizes at every connected / fully_connected
         # observe the public Callers (after the library's own callbacks, before the wrapper's)
         names = {'connection_requested': 'connection_requested', 'connection_failed': 'connection_failed',
                  'link_established': 'link_established', 'connected': 'connected', 'fully_connected': 'fully_connected',
@@ -388,6 +406,11 @@ class M1Real:
     def _out(self, name):
         if name == 'connection_requested':
             self.stale_log_toc = self.cf.log.toc       # the table of the previous connection, if any
+        if name in ('connected', 'fully_connected'):
+            cf = self.cf
+            toc = cf.log.toc
+            self.snapshots.append((name, 0 if toc is None else sum(len(g) for g in toc.toc.values()),
+                                   sum(len(g) for g in cf.param.toc.toc.values()), sum(len(g) for g in cf.param.values.values())))
         self.cur.append(name)
 
     def _hook_link(self, link):
@@ -699,7 +722,28 @@ def run_m1_case(dev, script):
     return r, executed, out
 
 
+def correspond_m2(ctx):
+    """M2: for every scenario the real threads run under the virtual scheduler on several schedules; the failure kinds
+    observed must be allowed by the verdict of the Lean thread model built from the regenerated repair flags
+    (model says no death / goal always reachable  =>  no run may show a dead thread / a hang / a leaked lock)."""
+    seeds = 12 if ctx.tier == 'thorough' else 3
+    found = run_m2(ctx, seeds, count=ctx.count)
+    replies = ctx.lean(DRIVER, ['m2 ' + sc[3] for sc in M2_SCENARIOS])
+    for (name, base, kind, model_sc), rep in zip(M2_SCENARIOS, replies):
+        kinds = found[name]
+        ctx.case({'m2': name, 'model': model_sc, 'schedules': seeds}, ('m2', name, ctx.seed))
+        real_death = 'thread-death' in kinds
+        real_stuck = bool(kinds & {'hang', 'lock-leak', 'not-disconnected', 'reconnect'})      # 'late-callback' (D23) is outside M2
+        m_death, m_stuck = 'death=1' in rep, 'stuck=1' in rep
+        ctx.count('m2-model:' + rep.split(' ', 2)[2] if rep.startswith('ok') else 'm2-model:bad')
+        if not rep.startswith('ok') or (real_death and not (m_death or m_stuck)) or (real_stuck and not (m_stuck or m_death)):
+            ctx.disagree('m2-' + name, {'scenario': name, 'model_scenario': model_sc}, rep, 'observed: ' + ','.join(sorted(kinds)) or '-')
+        if 'blocking-under-send-lock' in kinds and not (m_death or m_stuck):
+            ctx.disagree('m2-' + name, {'scenario': name, 'conformance': 'no blocking operation while _send_lock is held'}, rep, 'observed a blocking operation under _send_lock')
+
+
 def correspond(ctx):
+    correspond_m2(ctx)
     cases = gen_m1_cases(ctx)
     lines, runs = [], []
     for name, dev, script in cases:
@@ -733,7 +777,39 @@ def correspond(ctx):
 # ======================================================================================================
 # Failing-input search: the property itself, evaluated on the real code's observable behaviour
 # ======================================================================================================
+M2_KEYS = {
+    # (scenario, kind) -> finding key
+    ('sender-upd', 'hang'): 'D2-error-callback-under-send-lock', ('sender-upd', 'lock-leak'): 'D2-error-callback-under-send-lock',
+    ('sender-upd', 'not-disconnected'): 'D2-error-callback-under-send-lock',
+    ('sender-ping', 'thread-death'): 'D2-error-callback-under-send-lock', ('sender-ping', 'hang'): 'D2-error-callback-under-send-lock',
+    ('sender-ping', 'lock-leak'): 'D2-error-callback-under-send-lock', ('sender-ping', 'not-disconnected'): 'D2-error-callback-under-send-lock',
+    ('sender-userMem', 'hang'): 'D22-memory-lock-reentered-by-disconnect', ('sender-disp', 'reconnect'): 'D21-stale-fetcher-after-aborted-attempt',
+}
+
+
+def m2_key(name, kind, what):
+    if kind == 'blocking-under-send-lock':
+        return 'D2-error-callback-under-send-lock'
+    if kind == 'late-callback':
+        return 'D23-callback-after-end-of-attempt-race'
+    if kind == 'thread-death':
+        if 'AttributeError' in what or 'incoming packet thread' in what:
+            return 'D3-dispatcher-dies-on-link-none'
+        if 'parameter thread' in what or 'Thread-2' in what:
+            return 'D4-param-thread-double-release'
+        if name == 'sender-ping':
+            return 'D2-error-callback-under-send-lock'
+    return M2_KEYS.get((name, kind), 'm2-%s-%s' % (name, kind))
+
+
+def search_m2(ctx):
+    def witness(name, kind, what, inp):
+        ctx.witness(m2_key(name, kind, what), 'real threads under the virtual scheduler, scenario %s: %s' % (name, what), inp)
+    run_m2(ctx, 6 if ctx.tier == 'thorough' else 2, witness=witness)
+
+
 def search(ctx):
+    search_m2(ctx)
     rng = ctx.rng
     dev = (True, 2, 1, (True, False))
     n = handshake_len(dev)
@@ -748,6 +824,11 @@ def search(ctx):
         verdict, why, i = wf_check(executed, out[:-1])
         waiting = out[-1].split('waiting=')[1]
         opener, k, fault = tag
+        for (ev, nlog, npar, nval) in r.snapshots:
+            if (nlog, npar) != (d[1], len(d[3])) or (ev == 'fully_connected' and nval != len(d[3])):
+                ctx.witness('D21-stale-fetcher-after-aborted-attempt' if k > 0 else 'tables-incomplete-at-connected',
+                            '%s signalled with log=%d/%d param=%d/%d values=%d' % (ev, nlog, d[1], npar, len(d[3]), nval),
+                            {'dev': dev_line(d), 'ops': [op_line(o) for o in executed]}, fault_position=k, fault=fault)
         if waiting != 'none':
             ctx.witness('D1-sync-open-blocks-after-link-loss' if waiting == 'open' else 'sync-close-blocks',
                         'SyncCrazyflie.%s_link never returns: the attempt ended (link lost/closed) before `connected`' % waiting,
@@ -757,3 +838,294 @@ def search(ctx):
             key = 'D21-stale-fetcher-after-aborted-attempt' if i > 2 * k + 2 and stale else 'trace-not-well-formed'
             ctx.witness(key, 'callback trace violates the lifecycle: ' + str(why),
                         {'dev': dev_line(d), 'ops': [op_line(o) for o in executed[:i + 1]]}, fault_position=k, fault=fault)
+
+
+# ======================================================================================================
+# Layer M2: the real threads under the virtual scheduler (harness/vsched)
+# ======================================================================================================
+HORIZON = 3.0          # virtual seconds the user thread waits after the fault before it inspects the object
+
+
+def _vlink_class(cfg, vsched):
+    """fake CRTP driver living in virtual time (blocks only through the shim queue)"""
+    from cflib.crtp.crtpdriver import CRTPDriver
+    from cflib.crtp.crtpstack import CRTPPacket
+    from cflib.crtp.exceptions import WrongUriType
+
+    class VLink(CRTPDriver):
+        def __init__(self):
+            CRTPDriver.__init__(self)
+            self.q = vsched.queue.Queue()
+            self.closed = False
+            self.error_cb = None
+            self.needs_resending = False
+
+        def connect(self, uri, stat_cb, error_cb):
+            if not uri.startswith('vsim://'):
+                raise WrongUriType()
+            self.error_cb = error_cb
+            cfg['links'].append(self)
+
+        def send_packet(self, pk):
+            vsched.emit('tx', pk.port, pk.channel, bytes(pk.data).hex())
+            pred = cfg.get('fail_pred')
+            if pred is not None and not cfg.get('_failed') and not self.closed and pred(pk):
+                cfg['_failed'] = True
+                vsched.emit('LINK-ERROR', 'sender')
+                self.error_cb('simulated error reported while sending')
+                return
+            if self.closed:
+                return
+            for rp in cfg['device'](pk.port, pk.channel, bytes(pk.data)):
+                self.q.put(rp)
+
+        def receive_packet(self, wait=0):
+            try:
+                if wait == 0:
+                    p = self.q.get(False)
+                elif wait < 0:
+                    p = self.q.get(True)
+                else:
+                    p = self.q.get(True, wait)
+            except vsched.queue.Empty:
+                return None
+            if p is None:
+                return None
+            return CRTPPacket(((p[0] & 0xF) << 4) | (p[1] & 3), bytearray(p[2]))
+
+        def close(self):
+            self.closed = True
+            vsched.emit('link-close')
+
+        def get_name(self):
+            return 'vsim'
+
+        def get_status(self):
+            return 'ok'
+
+        def scan_interface(self, address=None):
+            return []
+    return VLink
+
+
+FAIL_PREDS = {
+    # which transmission the driver refuses (-> error callback from the sending thread)
+    'upd': lambda pk: pk.port == 2 and pk.channel == 1 and bytes(pk.data)[:2] == b'\x01\x00',    # 2nd parameter read (_ParamUpdater thread)
+    'disp': lambda pk: pk.port == 2 and pk.channel == 0 and bytes(pk.data)[:1] == b'\x02',        # a param TOC item request (dispatcher thread)
+    'ping': lambda pk: pk.port == 15 and pk.channel == 0,                                          # latency ping (ping thread)
+    'userMem': lambda pk: pk.port == 4 and pk.channel == 2,                                        # memory write chunk (user thread)
+    'setpoint': lambda pk: pk.port == 3,                                                           # close_link's set-point (user thread)
+}
+
+
+def m2_main(cfg, vsched):
+    """the scenario body run as the controlled main thread; builds ALL state itself (fresh per schedule)"""
+    def main():
+        import logging
+        logging.disable(logging.CRITICAL)
+        import cflib.crtp
+        from cflib.crazyflie import Crazyflie
+        from cflib.crazyflie.syncCrazyflie import SyncCrazyflie
+        from harness.sim import crazyflie_device as sim
+        dev = sim.CrazyflieDevice(protocol_version=5, log_toc=[sim.LogVar('a', 'b', 'float', 1.0)],
+                                  param_toc=[sim.ParamVar('g', 'p0', 'uint8_t', 1), sim.ParamVar('g', 'p1', 'uint8_t', 2),
+                                             sim.ParamVar('g', 'p2', 'uint16_t', 3)],
+                                  mems=[sim.Mem(0, data=bytes(64))])
+        cfg['device'] = dev.handle
+        cfg['links'] = []
+        cfg.pop('_failed', None)
+        if cfg.get('fault') in FAIL_PREDS:
+            cfg['fail_pred'] = FAIL_PREDS[cfg['fault']]
+        cflib.crtp.CLASSES[:] = [_vlink_class(cfg, vsched)]
+        cf = Crazyflie(rw_cache=None)
+        cfg['cf'] = cf
+        if not cfg.get('latency', True):
+            cf.link_statistics.start = lambda: None
+        evs = []
+        for n in ('connection_requested', 'link_established', 'connected', 'fully_connected', 'disconnected', 'connection_lost',
+                  'connection_failed', 'disconnected_link_error'):
+            getattr(cf, n).add_callback(lambda *a, _n=n: (evs.append(_n), vsched.emit('cb', _n)))
+        reached = vsched.threading.Event()
+        getattr(cf, cfg.get('when', 'fully_connected')).add_callback(lambda *a: reached.set())
+        for n in ('connection_failed', 'connection_lost'):
+            getattr(cf, n).add_callback(lambda *a: reached.set())
+        if cfg.get('fault') == 'driver':
+            def drv():
+                if cfg.get('driver_when') == 'early':
+                    while not cfg['links']:
+                        vsched.time.sleep(0.001)
+                else:
+                    reached.wait(HORIZON)
+                link = cfg['links'][-1]
+                if not link.closed:
+                    vsched.emit('LINK-ERROR', 'driver')
+                    link.error_cb('too many packets lost')
+            t = vsched.threading.Thread(target=drv, name='driver')
+            t.daemon = True
+            t.start()
+        out = {'events': evs}
+        if cfg.get('sync'):
+            scf = SyncCrazyflie('vsim://x', cf=cf)
+            try:
+                scf.open_link()
+                evs.append('open-returned')
+            except Exception:
+                evs.append('open-raised')
+        else:
+            cf.open_link('vsim://x')
+            reached.wait(HORIZON)
+        user = cfg.get('user', 'idle')
+        if user in ('memWrite', 'memWriteClose') and cf.mem.mems:
+            vsched.emit('user', 'mem-write')
+            cf.mem.write(cf.mem.mems[0], 0, bytes([1, 2, 3]))
+            vsched.emit('user', 'mem-write-returned')
+        if user in ('close', 'memWriteClose'):
+            vsched.emit('user', 'close')
+            (scf.close_link if cfg.get('sync') and cfg.get('sync_close') else cf.close_link)()
+            vsched.emit('user', 'close-returned')
+        vsched.time.sleep(HORIZON)
+        # inspection at the horizon (deterministic: virtual time)
+        out['state'] = cf.state
+        out['link_none'] = cf.link is None
+        out['incoming_alive'] = cf.incoming.is_alive()
+        out['updater_alive'] = cf.param.param_updater.is_alive()
+        out['send_lock_free'] = not cf._send_lock.locked()
+        ping = cf.link_statistics.latency._ping_thread_instance
+        out['ping_stopped'] = ping is None or not ping.is_alive()
+        if cfg.get('reconnect', True) and out['send_lock_free'] and out['incoming_alive']:
+            n0 = len(evs)
+            done = vsched.threading.Event()
+            cf.fully_connected.add_callback(lambda *a: done.set())
+            cfg['fail_pred'] = None
+            cfg['fault'] = None
+            cf.link_statistics.start = lambda: None
+            cf.open_link('vsim://x')
+            done.wait(HORIZON)
+            out['second'] = evs[n0:]
+            cf.close_link()
+        return out
+    return main
+
+
+def m2_policy(core, kind, seed, cfg):
+    """scheduling policies: seeded random, or 'starve': keep the ping thread out until the fault has happened, then let
+    it run first (drives the real threads into the window the Lean counterexample schedule describes)"""
+    import random
+
+    class Starve(core.Policy):
+        def begin(self, run):
+            self.rng = random.Random(seed)
+
+        def choose(self, options, current, run):
+            real = [o for o in options if o != core.TIME_JUMP]
+            starved = [o for o in real if run.threads[o].name == cfg.get('_ping_name', 'Thread-3')]
+            others = [o for o in real if o not in starved]
+            pool = (starved or others) if cfg.get('_failed') else (others or starved)
+            return self.rng.choice(pool) if pool else options[0]
+    if kind == 'starve':
+        return Starve()
+    return core.Random(seed)
+
+
+def m2_verdict(res, cfg):
+    """property verdict for one run: list of (key, description)"""
+    bad = []
+    for name, exc in res.deaths:
+        bad.append(('thread-death', '%s died: %s' % (name, type(exc).__name__)))
+    v = res.value if isinstance(res.value, dict) else None
+    if res.outcome in ('step-limit', 'deadlock') or v is None:
+        last = {}
+        for t in res.trace:
+            if t[1] not in ('emit', 'clock'):
+                last[res.thread_names.get(t[0], t[0])] = '%s %s' % (t[1], t[2])
+        bad.append(('hang', 'run did not finish (%s); last operations: %s' % (res.outcome, sorted(last.items()))))
+        return bad
+    evs = v['events']
+    faulted = cfg.get('fault') is not None
+    if faulted or cfg.get('user') in ('close', 'memWriteClose'):
+        if v['state'] != 0 or not v['link_none']:
+            bad.append(('not-disconnected', 'state=%s link_none=%s at the horizon' % (v['state'], v['link_none'])))
+        if 'disconnected' not in evs and 'connection_failed' not in evs:
+            bad.append(('hang', 'neither disconnected nor connection_failed was signalled within the horizon: ' + ','.join(evs)))
+        if not v['ping_stopped']:
+            bad.append(('hang', 'latency ping thread still alive after the disconnect'))
+    if not v['incoming_alive']:
+        bad.append(('thread-death', 'incoming packet thread is dead'))
+    if not v['updater_alive']:
+        bad.append(('thread-death', 'parameter thread is dead'))
+    if not v['send_lock_free']:
+        bad.append(('lock-leak', '_send_lock still held at the horizon'))
+    first = evs[:len(evs) - len(v.get('second', []))]
+    ends = [i for i, e in enumerate(first) if e in ('connection_failed', 'disconnected')]
+    if ends and any(e in ('link_established', 'connected', 'fully_connected') for e in first[ends[0] + 1:]):
+        bad.append(('late-callback', 'callback of the attempt delivered after its end: ' + ','.join(first)))
+    if 'second' in v and v['second'] != ['connection_requested', 'link_established', 'connected', 'fully_connected']:
+        bad.append(('reconnect', 'second attempt on the same object: ' + ','.join(v['second'])))
+    return bad
+
+
+def lock_conformance(res, cfg):
+    """structural facts the M2 model of the REPAIRED code relies on, checked on the recorded sync trace:
+    a thread that holds `_send_lock` announces no other blocking operation (acquire / join) before it releases it"""
+    cf = cfg.get('cf')
+    if cf is None:
+        return []
+    try:
+        s_label = cf._send_lock._label
+    except AttributeError:
+        return []
+    holder, bad = None, []
+    for tid, kind, label, info in res.trace:
+        if kind == 'acquire' and label == s_label:
+            holder = tid
+        elif kind == 'release' and label == s_label:
+            holder = None
+        elif holder is not None and tid == holder and kind in ('acquire', 'join'):
+            bad.append('%s %s while holding _send_lock' % (kind, label))
+    return bad
+
+
+M2_SCENARIOS = [
+    # (name, cfg, policy kind, model scenario for Driver/C02 `m2`)
+    ('sender-upd', {'fault': 'upd'}, 'starve', 'upd idle -'),
+    ('sender-disp', {'fault': 'disp', 'when': 'link_established'}, 'random', 'disp idle -'),
+    ('sender-ping', {'fault': 'ping'}, 'random', 'ping idle 3'),
+    ('sender-userMem', {'fault': 'userMem', 'user': 'memWrite'}, 'random', 'userMem memWrite -'),
+    ('driver', {'fault': 'driver'}, 'random', 'radio idle 3'),
+    ('driver-early', {'fault': 'driver', 'driver_when': 'early', 'when': 'link_established'}, 'random', 'radio idle 3'),
+    ('close', {'user': 'close'}, 'random', 'none close 1'),
+    ('close-early', {'user': 'close', 'when': 'connected'}, 'random', 'none close 3'),
+    ('driver-close', {'fault': 'driver', 'user': 'close'}, 'random', 'radio close -'),
+    ('sync-driver-early', {'fault': 'driver', 'driver_when': 'early', 'sync': True, 'when': 'link_established'}, 'random', 'radio idle 3'),
+]
+M2_TRACE_POINTS = [('run', 'receive_packet(1)')]
+
+
+def run_m2(ctx, seeds, witness=None, count=None):
+    """run every M2 scenario under `seeds` schedules each; returns {scenario: set of failure kinds}"""
+    from harness import vsched
+    from harness.vsched import core
+    found = {}
+    with vsched.Session(step_limit=2500, trace_points=M2_TRACE_POINTS) as s:
+        for name, base, kind, model_sc in M2_SCENARIOS:
+            kinds = set()
+            for i in range(seeds):
+                cfg = dict(base)
+                seed = ctx.rng.randrange(2 ** 31)
+                res = s.run(m2_main(cfg, vsched), policy=m2_policy(core, kind, seed, cfg))
+                bad = m2_verdict(res, cfg)
+                conf = lock_conformance(res, cfg)
+                if count:
+                    count('m2:' + name)
+                    count('m2-outcome:' + (bad[0][0] if bad else 'ok'))
+                for k, what in bad:
+                    kinds.add(k)
+                    if witness:
+                        witness(name, k, what, {'scenario': name, 'cfg': {a: b for a, b in base.items()}, 'policy': kind, 'seed': seed,
+                                                'choices': list(res.choices)[:400]})
+                if conf:
+                    kinds.add('blocking-under-send-lock')
+                    if witness:
+                        witness(name, 'blocking-under-send-lock', conf[0], {'scenario': name, 'policy': kind, 'seed': seed})
+            found[name] = kinds
+    return found
